@@ -32,6 +32,11 @@
 //!   definition `<fn>.forN` over the variables the body assigns (in declaration order); `BitIterator` is its state
 //!   `(int, n)` and an iterator is the list it yields (`iterList next (n + 1) state`); `rng: &mut R` is a script of
 //!   drawn u64s; `I: Into<U256>` of `FieldElement::pow` is monomorphised at the field type.
+//! * `lib.rs` (`impl Fr`, `impl Fq`, `FromStr`, `TryFrom<&[u8]>`, `From<..> for [u8; 32]`): the public newtypes `Fr(fields::Fr)` /
+//!   `Fq(fields::Fq)` are the identity; the wrappers become `LibFr.*` / `LibFq.*` and call the translated `Fp.*` at
+//!   `Fr.P` / `Fq.P`; `match len { a..=b => .., c => .., _ => .. }` is a chain of `if`s; `.ok()`, `.ok_or(..)`,
+//!   `.map_err(..)` are the identity on `Option`; `.map(Fr)` is the identity, `.map(path)` is `Option.map`;
+//!   `x.add(&y)` etc. on field elements are the `*_inplace` methods.
 //! Anything outside the subset: the function is skipped and reported, never mistranslated.
 use proc_macro2::{Delimiter, Group, Ident as PIdent, Span, TokenStream, TokenTree};
 use quote::quote;
@@ -49,7 +54,7 @@ fn ident(s: &str) -> String {
 }
 
 #[derive(Clone, Debug, PartialEq)]
-enum Ty { U64, U128, Usize, U32, U8, Bool, U256, B256, U512, B512, Limbs(usize), MulBuf, Fp, FpArr, Tuple(Vec<Ty>), Opt(Box<Ty>), Unit, Lit, Bytes, Char, Chars, BoolList, Rng, BitIter }
+enum Ty { U64, U128, Usize, U32, U8, Bool, U256, B256, U512, B512, Limbs(usize), MulBuf, Fp, FpArr, Tuple(Vec<Ty>), Opt(Box<Ty>), Unit, Lit, Bytes, Char, Chars, BoolList, Rng, BitIter, LibFr, LibFq }
 
 impl Ty {
     fn is_int(&self) -> bool { matches!(self, Ty::U64 | Ty::U128 | Ty::Usize | Ty::U32 | Ty::Lit) }
@@ -61,7 +66,7 @@ impl Ty {
     }
     fn lean(&self) -> String {
         match self {
-            Ty::U64 | Ty::U128 | Ty::Usize | Ty::U32 | Ty::Lit | Ty::U256 | Ty::B256 | Ty::U512 | Ty::B512 | Ty::Fp => "Nat".into(),
+            Ty::U64 | Ty::U128 | Ty::Usize | Ty::U32 | Ty::Lit | Ty::U256 | Ty::B256 | Ty::U512 | Ty::B512 | Ty::Fp | Ty::LibFr | Ty::LibFq => "Nat".into(),
             Ty::Bool => "Bool".into(),
             Ty::U8 => "UInt8".into(),
             Ty::Char => "Char".into(),
@@ -75,7 +80,7 @@ impl Ty {
             Ty::Unit => "Unit".into(),
         }
     }
-    fn is_big(&self) -> bool { matches!(self, Ty::U256 | Ty::B256 | Ty::Fp | Ty::U512 | Ty::B512) }
+    fn is_big(&self) -> bool { matches!(self, Ty::U256 | Ty::B256 | Ty::Fp | Ty::U512 | Ty::B512 | Ty::LibFr | Ty::LibFq) }
 }
 
 fn paren(s: &str) -> String {
@@ -175,7 +180,7 @@ pub struct Obligation { pub name: String, pub binders: String, pub hyps: Vec<Str
 pub struct Global { sigs: HashMap<(String, String), FnSig> }
 
 fn tykey(t: &Ty) -> &'static str {
-    match t { Ty::U256 => "U256", Ty::B256 => "B256", Ty::Fp => "Fp", Ty::U512 => "U512", Ty::B512 => "B512", Ty::BitIter => "BitIterator", _ => "" }
+    match t { Ty::U256 => "U256", Ty::B256 => "B256", Ty::Fp => "Fp", Ty::U512 => "U512", Ty::B512 => "B512", Ty::BitIter => "BitIterator", Ty::LibFr => "LibFr", Ty::LibFq => "LibFq", _ => "" }
 }
 
 #[derive(Clone)]
@@ -203,6 +208,7 @@ struct Fx<'a> {
     for_count: usize,
     generic_tys: Option<HashMap<String, Ty>>,
     retnone: bool,
+    lib: Option<String>,      // lib.rs wrappers: Some("Fr") / Some("Fq")
     has_dbg: bool,
     facts: Vec<(usize, String)>,
     conds: Vec<(usize, String)>,
@@ -347,6 +353,12 @@ impl<'a> Fx<'a> {
             Type::Path(p) => {
                 let last = p.path.segments.last().ok_or("empty path")?;
                 if let Some(g) = &self.generic_tys { if let Some(t) = g.get(&last.ident.to_string()) { return Ok(t.clone()); } }
+                if let Some(l) = &self.lib {
+                    // lib.rs: `Fr` / `Fq` are the public newtypes, `fields::Fr` / `fields::Fq` the field_impl! types
+                    let segs: Vec<String> = p.path.segments.iter().map(|s| s.ident.to_string()).collect();
+                    if segs.len() == 2 && segs[0] == "fields" { if segs[1] == *l { return Ok(Ty::Fp); } else { return Err(format!("fields::{} in impl {}", segs[1], l)); } }
+                    if segs.len() == 1 && (segs[0] == "Fr" || segs[0] == "Fq") { return Ok(if segs[0] == "Fr" { Ty::LibFr } else { Ty::LibFq }); }
+                }
                 match last.ident.to_string().as_str() {
                     "u64" => Ty::U64, "u128" => Ty::U128, "usize" => Ty::Usize, "u32" => Ty::U32, "bool" => Ty::Bool, "u8" => Ty::U8,
                     "str" => Ty::Chars, "char" => Ty::Char, "BitIterator" => Ty::BitIter,
@@ -545,6 +557,7 @@ impl<'a> Fx<'a> {
     fn field(&mut self, f: &ExprField) -> R<Val> {
         let b = self.expr(&f.base, None)?;
         match (&f.member, &b.ty) {
+            (Member::Unnamed(i), Ty::LibFr) | (Member::Unnamed(i), Ty::LibFq) if i.index == 0 => Ok(Val::new(b.s, Ty::Fp)),
             (Member::Unnamed(i), Ty::Fp) if i.index == 0 => Ok(Val::new(b.s, Ty::U256)),
             (Member::Unnamed(i), Ty::U256) if i.index == 0 => Ok(Val::new(b.s, Ty::B256)),
             (Member::Unnamed(i), Ty::U512) if i.index == 0 => Ok(Val::new(b.s, Ty::B512)),
@@ -811,7 +824,7 @@ impl<'a> Fx<'a> {
                 if let Member::Unnamed(i) = &f.member {
                     if i.index == 0 {
                         let b = self.expr(&f.base, None)?;
-                        if matches!(b.ty, Ty::Fp | Ty::U256 | Ty::U512) { return self.place_var(&f.base); }
+                        if matches!(b.ty, Ty::Fp | Ty::U256 | Ty::U512 | Ty::LibFr | Ty::LibFq) { return self.place_var(&f.base); }
                     }
                 }
                 Err(format!("unsupported place `{}`", short(e)))
@@ -1008,6 +1021,52 @@ impl<'a> Fx<'a> {
             self.note("an iterator is translated as the list it yields (iterList next (n + 1) state); skip_while is List.dropWhile");
             return Ok(Val::new(format!("(List.dropWhile (fun {} => {}) (iterList {} ({}.2 + 1) {}))", ident(&pn[0].0), text, next.lean, paren(&r.s), paren(&r.s)), Ty::BoolList));
         }
+        if matches!(name.as_str(), "ok" | "ok_or" | "map_err") && args.len() <= 1 {
+            // Result <-> Option adaptors: the model does not distinguish the errors
+            let r = self.expr(&m.receiver, None)?;
+            if let Ty::Opt(_) = r.ty { return Ok(r); }
+            return Err(format!("{}() on {:?}", name, r.ty));
+        }
+        if name == "map" && args.len() == 1 {
+            if let Expr::Path(fp) = &args[0] {
+                let r = self.expr(&m.receiver, None)?;
+                let Ty::Opt(inner) = r.ty.clone() else { return Err("map on a non-Option".into()) };
+                let fname = path_str(&fp.path);
+                if (fname == "Fr" || fname == "Fq") && self.lib.as_deref() == Some(fname.as_str()) && *inner == Ty::Fp {
+                    // `.map(Fr)`: the newtype constructor is the identity
+                    return Ok(Val::new(r.s, Ty::Opt(Box::new(if fname == "Fr" { Ty::LibFr } else { Ty::LibFq }))));
+                }
+                // `.map(path::to::function)`
+                let x = self.fresh("x");
+                let arg: Expr = parse_str(&x).map_err(|e| e.to_string())?;
+                let callee = Expr::Call(ExprCall { attrs: vec![], func: Box::new(Expr::Path(fp.clone())), paren_token: Default::default(), args: std::iter::once(arg).collect() });
+                let (text, ty) = self.closure_value(&callee, vec![(x.clone(), Self::plain((*inner).clone(), false))])?;
+                return Ok(Val::new(format!("(Option.map (fun {} => {}) {})", x, text, paren(&r.s)), Ty::Opt(Box::new(ty))));
+            }
+        }
+        if matches!(name.as_str(), "add" | "sub" | "mul" | "neg") {
+            // operator-trait methods on field elements forward to the *_inplace methods (fields/utils.rs binop macros)
+            let r = self.expr(&m.receiver, None)?;
+            if r.ty == Ty::Fp && ((name == "neg" && args.is_empty()) || args.len() == 1) {
+                self.note("Add/Sub/Mul/Neg::{add,sub,mul,neg} on field elements are the *_inplace methods");
+                self.pre.push((&*m.receiver as *const Expr, r));
+                let res = self.call_named("Fp", &format!("{}_inplace", name), Some(&m.receiver), &args);
+                self.pre.clear();
+                return res;
+            }
+            self.pre.push((&*m.receiver as *const Expr, r));
+        }
+        if name == "into" && args.is_empty() {
+            let r = self.expr(&m.receiver, None)?;
+            if r.ty == Ty::Fp && exp == Some(&Ty::Bytes) {
+                self.note("`.into()` from a field element to [u8; 32] is From<Fp> for [u8; 32] = to_slice");
+                self.pre.push((&*m.receiver as *const Expr, r));
+                let res = self.call_named("Fp", "to_slice", Some(&m.receiver), &[]);
+                self.pre.clear();
+                return res;
+            }
+            self.pre.push((&*m.receiver as *const Expr, r));
+        }
         if name == "into" && args.is_empty() {
             let r = self.expr(&m.receiver, None)?;
             if r.ty == Ty::Fp {
@@ -1127,6 +1186,12 @@ impl<'a> Fx<'a> {
             ("U512", 1) => { let v = self.expr(&args[0], Some(&Ty::B512))?; if v.ty != Ty::B512 { return Err("U512(..) of a non-BigInt".into()); } return Ok(Val::new(v.s, Ty::U512)); }
             ("B512::one", 0) => return Ok(Val::new("1", Ty::B512)),
             ("B512::new", 1) => { let v = self.expr(&args[0], None)?; if v.ty != Ty::Limbs(8) { return Err("B512::new".into()); } return Ok(Val::new(format!("(Limb.value B64 {})", paren(&v.s)), Ty::B512)); }
+            ("Fq", 1) | ("Fr", 1) if self.lib.is_some() => {
+                let v = self.expr(&args[0], Some(&Ty::Fp))?;
+                if v.ty != Ty::Fp { return Err("newtype constructor on a non-field value".into()); }
+                if self.lib.as_deref() != Some(f.as_str()) { return Err(format!("{}(..) in impl {}", f, self.lib.clone().unwrap())); }
+                return Ok(Val::new(v.s, if f == "Fr" { Ty::LibFr } else { Ty::LibFq }));
+            }
             ("Fq", 1) | ("Fr", 1) | ("Fp", 1) | ("Self", 1) if f != "Self" || self.self_ty == Ty::Fp => {
                 let v = self.expr(&args[0], Some(&Ty::U256))?;
                 if v.ty != Ty::U256 { return Err("field constructor on a non-U256".into()); }
@@ -1153,6 +1218,17 @@ impl<'a> Fx<'a> {
             _ => {}
         }
         if segs.len() == 1 { return self.call_named("", &segs[0], None, &args); }
+        if let Some(l) = self.lib.clone() {
+            if segs.len() == 3 && segs[0] == "fields" {
+                if segs[1] != l { return Err(format!("{} in impl {}", f, l)); }
+                return self.call_named("Fp", &segs[2], None, &args);
+            }
+            if segs.len() == 2 && (segs[0] == "Fr" || segs[0] == "Fq" || segs[0] == "Self") {
+                let tk = match segs[0].as_str() { "Fr" => "LibFr", "Fq" => "LibFq", _ => tykey(&self.self_ty) }.to_string();
+                if tk != format!("Lib{}", l) { return Err(format!("{} in impl {}", f, l)); }
+                return self.call_named(&tk, &segs[1], None, &args);
+            }
+        }
         if segs.len() == 2 {
             let tk = match segs[0].as_str() { "Self" => tykey(&self.self_ty).to_string(), "Fq" | "Fr" | "Fp" => "Fp".into(), "U256" => "U256".into(), "U512" => "U512".into(), o => return Err(format!("call {}::{}", o, segs[1])) };
             if (segs[0] == "Fq" || segs[0] == "Fr") && self.p_arg.as_deref() != Some(&format!("{}.P", segs[0])) { return Err(format!("{} in the context of another field", f)); }
@@ -1862,8 +1938,49 @@ impl<'a> Fx<'a> {
         if v.len() != 2 || v.iter().filter(|a| a.0 == "none").count() != 1 { return Err("match on an Option needs one `Some`/`Ok` and one `None`/`Err` arm".into()); }
         Ok(v)
     }
+    /// `match n { a..=b => .., c => .., _ => .. }` on an integer: a chain of `if`s
+    fn tail_match_int(&mut self, m: &ExprMatch, sc: &Val) -> R<String> {
+        fn lit(e: &Expr) -> Option<u128> { lit_u128(e) }
+        let mut out = String::new();
+        let mut depth = 0usize;
+        let n = m.arms.len();
+        for (k, arm) in m.arms.iter().enumerate() {
+            if arm.guard.is_some() { return Err("match guard".into()); }
+            let cond: Option<String> = match &arm.pat {
+                Pat::Wild(_) => None,
+                Pat::Lit(l) => { let v = lit(&Expr::Lit(ExprLit { attrs: vec![], lit: l.lit.clone() })).ok_or("match literal")?; Some(format!("{} = {}", sc.s, v)) }
+                Pat::Range(r) => {
+                    let (Some(lo), Some(hi)) = (&r.start, &r.end) else { return Err("open range pattern".into()) };
+                    let (lo, hi) = (lit(lo).ok_or("range pattern bound")?, lit(hi).ok_or("range pattern bound")?);
+                    match r.limits { RangeLimits::Closed(_) => Some(format!("{} ≤ {} ∧ {} ≤ {}", lo, sc.s, sc.s, hi)), RangeLimits::HalfOpen(_) => Some(format!("{} ≤ {} ∧ {} < {}", lo, sc.s, sc.s, hi)) }
+                }
+                p => return Err(format!("match pattern {}", short(p))),
+            };
+            let stmts: Vec<Stmt> = match &*arm.body { Expr::Block(b) => b.block.stmts.clone(), e => vec![Stmt::Expr(e.clone(), None)] };
+            match cond {
+                Some(c) => {
+                    if k + 1 == n { return Err("integer match without a final `_` arm".into()); }
+                    let t = self.branch_tail(&stmts, Some(c.clone()))?;
+                    write!(out, "{}if {} then\n{}\n{}else\n", " ".repeat(depth), c, indent(&t, depth + 2), " ".repeat(depth)).unwrap();
+                    // the following arms are reached only if this pattern did not match
+                    self.scopes.push(Scope::default());
+                    let d = self.scopes.len(); self.conds.push((d, format!("¬ ({})", c)));
+                    depth += 2;
+                }
+                None => {
+                    if k + 1 != n { return Err("`_` arm is not the last one".into()); }
+                    let t = self.branch_tail(&stmts, None)?;
+                    out.push_str(&indent(&t, depth));
+                }
+            }
+        }
+        for _ in 0..(depth / 2) { self.scopes.pop(); }
+        let d = self.scopes.len(); self.facts.retain(|f| f.0 <= d); self.conds.retain(|f| f.0 <= d);
+        Ok(out)
+    }
     fn tail_match(&mut self, m: &ExprMatch) -> R<String> {
         let sc = self.expr(&m.expr, None)?;
+        if sc.ty.is_int() && sc.ty != Ty::Lit { return self.tail_match_int(m, &sc); }
         let Ty::Opt(inner) = sc.ty.clone() else { return Err(format!("match on {:?}", sc.ty)) };
         let arms = self.option_arms(m)?;
         let mut text = format!("match {} with", sc.s);
@@ -2043,8 +2160,9 @@ fn new_fx<'a>(g: &'a Global, t: &Target, partial: bool) -> Fx<'a> {
             if b.contains("Rng") { gt.insert(tp.ident.to_string(), Ty::Rng); } else if b.contains("Into<U256>") { gt.insert(tp.ident.to_string(), Ty::Fp); }
         }
     }
-    let mut fx = Fx { g, key: t.key.clone(), lean_name: t.lean.clone(), scopes: vec![Scope::default()], bufs: vec![], fresh: 0, self_ty: t.self_ty.clone(), recv: Recv::None, ret: Ty::Unit, mut_params: vec![], p_arg: t.p_arg.clone(), in_macro: t.in_macro, partial, panics: false, dbg: vec![], in_assert: false, assert_flags: vec![], unwrapped: HashMap::new(), payload_mutated: BTreeSet::new(), pre: vec![], for_count: 0, generic_tys: None, retnone: false, has_dbg: false, facts: vec![], conds: vec![], obligations: vec![], aux_defs: String::new(), aux_names: vec![], fuels: fuels_of(&t.key), loop_count: 0, notes: vec![], zip_generic: t.generic.clone(), next_id: 0, calls: BTreeSet::new() };
+    let mut fx = Fx { g, key: t.key.clone(), lean_name: t.lean.clone(), scopes: vec![Scope::default()], bufs: vec![], fresh: 0, self_ty: t.self_ty.clone(), recv: Recv::None, ret: Ty::Unit, mut_params: vec![], p_arg: t.p_arg.clone(), in_macro: t.in_macro, partial, panics: false, dbg: vec![], in_assert: false, assert_flags: vec![], unwrapped: HashMap::new(), payload_mutated: BTreeSet::new(), pre: vec![], for_count: 0, generic_tys: None, retnone: false, lib: None, has_dbg: false, facts: vec![], conds: vec![], obligations: vec![], aux_defs: String::new(), aux_names: vec![], fuels: fuels_of(&t.key), loop_count: 0, notes: vec![], zip_generic: t.generic.clone(), next_id: 0, calls: BTreeSet::new() };
     if !gt.is_empty() { fx.generic_tys = Some(gt); }
+    if t.tk == "LibFr" { fx.lib = Some("Fr".into()); } else if t.tk == "LibFq" { fx.lib = Some("Fq".into()); }
     fx
 }
 
@@ -2136,7 +2254,8 @@ fn order_targets(mut ts: Vec<Target>) -> Vec<Target> {
         "U512.from_slice", "U512.new", "U512.bit_length", "U512.get_bit", "U512.divrem", "U512.interpret", "U512.random", "U256.random",
         "Fp.into_u256", "Fp.zero", "Fp.is_zero", "Fp.one", "Fp.is_one", "Fp.new", "Fp.new_mul_factor", "Fp.add_inplace", "Fp.sub_inplace", "Fp.mul_inplace", "Fp.neg_inplace", "Fp.inverse", "Fp.double", "Fp.triple", "Fp.squared", "Fp.set_bit", "Fp.modulus",
         "Fp.from_slice", "Fp.to_slice", "Fp.interpret", "Fp.from_str", "Fp.random", "Fp.pow",
-        "Fq.div2", "Fq.sqrt", "Fq.sum_of_products", "Fr.from_hash"];
+        "Fq.div2", "Fq.sqrt", "Fq.sum_of_products", "Fr.from_hash",
+        "LibFr.new_mul_factor", "LibFr.to_slice", "LibFr.from_slice", "LibFq.new_mul_factor", "LibFq.into_u256", "LibFq.to_slice", "LibFq.from_slice"];
     let pos = |k: &str| ORDER.iter().position(|o| *o == k).unwrap_or(ORDER.len());
     ts.sort_by_key(|t| pos(&t.key)); // stable: the rest keeps source order
     ts
@@ -2214,6 +2333,37 @@ pub fn run(src_dir: &str, out_dir: &str) -> (usize, usize) {
             }
             collect_impl_fns(&file.items, &mut targets, false);
         }
+    }
+    match read("lib.rs") {
+        Err(e) => { report.insert("lib.rs::<file>".into(), e); }
+        Ok(file) => for it in &file.items {
+            let Item::Impl(im) = it else { continue };
+            let tr = im.trait_.as_ref().map(|(_, p, _)| quote!(#p).to_string().replace(' ', ""));
+            let selfname = impl_self_name(im);
+            let selftxt = { let t = &im.self_ty; quote!(#t).to_string().replace(' ', "") };
+            // which wrapper, and how the function is called in the report
+            let (wrapper, rename): (Option<&str>, Option<&str>) = match (selfname.as_deref(), tr.as_deref(), selftxt.as_str()) {
+                (Some("Fr"), None, _) => (Some("Fr"), None),
+                (Some("Fq"), None, _) => (Some("Fq"), None),
+                (Some("Fr"), Some("FromStr"), _) => (Some("Fr"), None),
+                (Some("Fq"), Some("FromStr"), _) => (Some("Fq"), None),
+                (Some("Fr"), Some("TryFrom<&[u8]>"), _) => (Some("Fr"), None),
+                (Some("Fq"), Some("TryFrom<&[u8]>"), _) => (Some("Fq"), None),
+                (_, Some("From<Fr>"), "[u8;32]") => (Some("Fr"), Some("into_bytes")),
+                (_, Some("From<&'aFr>"), "[u8;32]") => (Some("Fr"), Some("into_bytes_ref")),
+                (_, Some("From<Fq>"), "[u8;32]") => (Some("Fq"), Some("into_bytes")),
+                (_, Some("From<&'aFq>"), "[u8;32]") => (Some("Fq"), Some("into_bytes_ref")),
+                _ => (None, None),
+            };
+            let Some(w) = wrapper else { continue };
+            for ii in &im.items {
+                let ImplItem::Fn(m) = ii else { continue };
+                let name = rename.map(|s| s.to_string()).unwrap_or_else(|| m.sig.ident.to_string());
+                let ns = format!("Lib{}", w);
+                let self_ty = if rename.is_some() { Ty::Bytes } else if w == "Fr" { Ty::LibFr } else { Ty::LibFq };
+                targets.push(Target { key: format!("{}.{}", ns, name), lean: format!("{}.{}", ns, ident(&name)), tk: ns.clone(), self_ty, in_macro: false, p_arg: Some(format!("{}.P", w)), takes_p: false, item: m.clone(), generic: None });
+            }
+        },
     }
     match read("fields.rs") {
         Err(e) => { report.insert("fields.rs::<file>".into(), e); }
